@@ -55,3 +55,310 @@ Print Assumptions C01_left_subtree_len_formula.
 Print Assumptions C01_spec_anchor_empty.
 Print Assumptions C01_spec_anchor_abc.
 Print Assumptions C01_platforms_exist.
+Print Assumptions C01_nonvacuous.
+
+(* ---- the model against the source text: the wide / all-at-once core of src/lib.rs ------------------------------
+   gen/GenLibWide.v is the text of largest_power_of_two_leq, compress_chunks_parallel, compress_parents_parallel,
+   compress_subtree_wide, compress_subtree_to_parent_node, hash_all_at_once, hash, keyed_hash, derive_key (src/lib.rs) and
+   hazmat::left_subtree_len (src/hazmat.rs), translated statement by statement (tools/gen_coq.py gen_lib_wide, on top of
+   gen/GenLibSmall.v / GenLibLoops.v): the recursion of compress_subtree_wide is a Fixpoint on explicit fuel (the
+   leading `if .. { return ..; }` first, then `match fuel`), J::join(|| a, || b) is a then b (the schedule independence
+   is C08), `out: &mut [u8]` buffers are threaded byte lists, chunks_exact / split_at / split_at_mut / array_ref! /
+   array_mut_ref! / ArrayVec have list semantics (Base/Slice.v, Base/ArrayVec.v) with a bounds assert per site whose
+   Panic code is the one Model/RsWide.v uses for that site; Platform::hash_many, MAX_SIMD_DEGREE, MAX_SIMD_DEGREE_OR_2,
+   Platform::detect(), platform::words_from_le_bytes_32 and hazmat::hash_derive_key_context are parameters.
+
+   Each translated function EQUALS its model on every argument and every fuel, Panic and OutOfFuel results included,
+   up to two explicit maps.
+   (1) Buffers.  The models return lists of chaining values and take the capacity of `out` in CVs; the translation
+       returns (arr_store out 0 (concat cvs), number of CVs) and its capacity is (length out) / 32; child CVs are passed
+       concatenated; Platform::hash_many is m_hash_many (p_hash_many of the model's platform, stored at offset 0).
+   (2) Fuel.  The translation threads one fuel through every loop, recursion and callee, the models give each loop its
+       own; the *_with functions are the models with the translation's discipline (defining equations below), and
+       equal / refine the models as soon as the fuel suffices.
+   Hypotheses are type invariants only: an 8-word key, input.len() < 2^64, and plat_wf p (hash_many returns one 32-byte
+   CV per input and respects the capacity, compress_in_place returns 8 words, the degrees fit 32 bits): every platform
+   with the portable kernels has it.  Proofs in Proofs/GenLibWideP.v. *)
+From V Require Import Base.MachInt Base.Arr Base.ArrayVec Base.Slice gen.GenConsts gen.GenLibSmall gen.GenLibLoops gen.GenLibWide
+  Model.RsChunk Proofs.GenLibSmallP Proofs.GenLibLoopsP Proofs.GenLibWideP.
+
+Theorem C01_lib_src_wide_repr_def :
+  (forall p inputs key counter incr flags fs fe out,
+     m_hash_many p inputs key counter incr flags fs fe out =
+     (cvs <- p_hash_many p inputs key counter incr flags fs fe (nlen out / 32) ;; Ok (arr_store out 0 (concat cvs)))) /\
+  (forall s off vs, arr_store s off vs = firstn off s ++ vs ++ skipn (off + length vs) s) /\
+  (forall cvs, cvs32 cvs <-> Forall (fun cv => length cv = 32%nat) cvs) /\
+  (forall (A : Type) (r1 r2 : res A), refines r1 r2 <-> (r1 = OutOfFuel \/ r1 = r2)) /\
+  (forall (A : Type) (c : N) (r : res A),
+     at_code c r = match r with Ok a => Ok a | Panic _ => Panic c | OutOfFuel => OutOfFuel end) /\
+  (forall n l, sl_chunks_exact n l = chunks_exact_of n l).
+Proof.
+  split; [reflexivity|]. split; [reflexivity|]. split; [intros; reflexivity|]. split; [intros; reflexivity|].
+  split; [reflexivity|]. exact sl_chunks_exact_eq.
+Qed.
+Print Assumptions C01_lib_src_wide_repr_def.
+
+Theorem C01_lib_src_plat_wf_def : forall p, plat_wf p <->
+  ((forall inputs key ctr incr fl fs fe cap cvs, length key = 8%nat ->
+      p_hash_many p inputs key ctr incr fl fs fe cap = Ok cvs ->
+      length cvs = length inputs /\ cvs32 cvs /\ N.of_nat (length inputs) <= cap) /\
+   (forall cv block bl ctr fl, length cv = 8%nat -> length (p_compress_in_place p cv block bl ctr fl) = 8%nat) /\
+   p_degree p < 2 ^ 32 /\ p_max_degree p < 2 ^ 32).
+Proof.
+  intros p. split.
+  - intros [A B C D]. split; [exact A|]. split; [exact B|]. split; [exact C|exact D].
+  - intros [A [B [C D]]]. constructor; assumption.
+Qed.
+Print Assumptions C01_lib_src_plat_wf_def.
+
+(* plat_wf is not vacuous: the portable kernels at any SIMD degree *)
+Theorem C01_lib_src_plat_wf_sim : forall d m, d < 2 ^ 32 -> m < 2 ^ 32 -> plat_wf (sim_platform d m).
+Proof. exact sim_platform_wf. Qed.
+Print Assumptions C01_lib_src_plat_wf_sim.
+
+Theorem C01_lib_src_largest_power_of_two_leq : forall n,
+  lib_largest_power_of_two_leq n = rs_largest_power_of_two_leq n.
+Proof. exact lib_largest_power_of_two_leq_eq. Qed.
+Print Assumptions C01_lib_src_largest_power_of_two_leq.
+
+(* hazmat::left_subtree_len: the model's assert 1205 is its debug_assert!, then the formula *)
+Theorem C01_lib_src_hazmat_left_subtree_len : forall n,
+  lib_hazmat_left_subtree_len n = (assert! (rs_CHUNK_LEN <? n) code 1205 ;; rs_left_subtree_len n).
+Proof. exact lib_hazmat_left_subtree_len_eq. Qed.
+Print Assumptions C01_lib_src_hazmat_left_subtree_len.
+
+(* the models with the translation's fuel discipline *)
+Theorem C01_lib_src_compress_chunks_parallel_with_def : forall fuel p input key chunk_counter flags cap,
+  compress_chunks_parallel_with fuel p input key chunk_counter flags cap =
+  (assert! (negb (nlen input =? 0)) code 1200 ;;
+   assert! (nlen input <=? p_max_degree p * rs_CHUNK_LEN) code 1201 ;;
+   let '(chunks, rem) := chunks_exact_of rs_CHUNK_LEN input in
+   assert! (nlen_l chunks <=? p_max_degree p) code 30 ;;
+   cvs <- p_hash_many p chunks key chunk_counter true flags rs_flag_CHUNK_START rs_flag_CHUNK_END cap ;;
+   let chunks_so_far := nlen_l chunks in
+   if negb (nlen rem =? 0) then
+     counter <- mi_add 64 chunk_counter chunks_so_far ;;
+     cs <- cs_update_with fuel p (cs_new key counter flags) rem ;;
+     assert! (chunks_so_far + 1 <=? cap) code 31 ;;
+     Ok (cvs ++ [out_chaining_value p (cs_output cs)])
+   else Ok cvs).
+Proof. reflexivity. Qed.
+Print Assumptions C01_lib_src_compress_chunks_parallel_with_def.
+
+Theorem C01_lib_src_compress_subtree_wide_with_def : forall fuel p input key chunk_counter flags cap,
+  compress_subtree_wide_with fuel p input key chunk_counter flags cap =
+  if nlen input <=? p_degree p * rs_CHUNK_LEN then
+    compress_chunks_parallel_with fuel p input key chunk_counter flags cap
+  else match fuel with
+  | O => OutOfFuel
+  | S fuel' =>
+      assert! (MachInt.popcount (p_degree p) =? 1) code 1204 ;;
+      assert! (rs_CHUNK_LEN <? nlen input) code 1205 ;;
+      left_len <- rs_left_subtree_len (nlen input) ;;
+      assert! (left_len <=? nlen input) code 34 ;;
+      let left := firstn (N.to_nat left_len) input in
+      let right := skipn (N.to_nat left_len) input in
+      right_counter <- rs_right_chunk_counter chunk_counter left_len ;;
+      let array_cap := 2 * max_degree_or_2 p in
+      degree <- (if left_len =? rs_CHUNK_LEN then
+                   assert! (p_degree p =? 1) code 1206 ;; Ok 1
+                 else Ok (N.max (p_degree p) 2)) ;;
+      assert! (degree <=? array_cap) code 35 ;;
+      lcvs <- compress_subtree_wide_with fuel' p left key chunk_counter flags degree ;;
+      rcvs <- compress_subtree_wide_with fuel' p right key right_counter flags (array_cap - degree) ;;
+      let left_n := N.of_nat (length lcvs) in
+      let right_n := N.of_nat (length rcvs) in
+      assert! (left_n =? degree) code 1207 ;;
+      assert! ((1 <=? right_n) && (right_n <=? left_n)) code 1208 ;;
+      if left_n =? 1 then
+        assert! (2 <=? cap) code 36 ;;
+        Ok (firstn 2 (lcvs ++ rcvs))
+      else
+        compress_parents_parallel p (lcvs ++ rcvs) key flags cap
+  end.
+Proof. intros [|fuel]; reflexivity. Qed.
+Print Assumptions C01_lib_src_compress_subtree_wide_with_def.
+
+Theorem C01_lib_src_all_at_once_with_def : forall fuel p input key chunk_counter flags context,
+  compress_subtree_to_parent_node_with fuel p input key chunk_counter flags =
+    (assert! (rs_CHUNK_LEN <? nlen input) code 1209 ;;
+     cvs <- compress_subtree_wide_with fuel p input key chunk_counter flags (max_degree_or_2 p) ;;
+     assert! (2 <=? N.of_nat (length cvs)) code 1210 ;;
+     cvs <- condense_loop fuel p cvs key flags ;;
+     match cvs with [a; b] => Ok (a ++ b) | _ => Panic 1211 end) /\
+  hash_all_at_once_with fuel p input key flags =
+    (if nlen input <=? rs_CHUNK_LEN then
+       cs <- cs_update_with fuel p (cs_new key 0 flags) input ;; Ok (cs_output cs)
+     else
+       block <- compress_subtree_to_parent_node_with fuel p input key 0 flags ;;
+       Ok (mkOutput key block rs_BLOCK_LEN 0 (N.lor flags rs_flag_PARENT))) /\
+  rs_hash_with fuel p input = (o <- hash_all_at_once_with fuel p input rs_IV 0 ;; out_root_hash p o) /\
+  rs_keyed_hash_with fuel p key input =
+    (o <- hash_all_at_once_with fuel p input (words_of_bytes key) rs_flag_KEYED_HASH ;; out_root_hash p o) /\
+  rs_derive_key_with fuel p context input =
+    (context_key <- rs_hash_derive_key_context p context ;;
+     o <- hash_all_at_once_with fuel p input (words_of_bytes context_key) rs_flag_DERIVE_KEY_MATERIAL ;;
+     out_root_hash p o).
+Proof. intros. repeat split; reflexivity. Qed.
+Print Assumptions C01_lib_src_all_at_once_with_def.
+
+(* the translated functions *)
+Theorem C01_lib_src_compress_chunks_parallel : forall p, plat_wf p -> forall fuel input key chunk_counter flags out,
+  length key = 8%nat ->
+  lib_compress_chunks_parallel m_Output_chaining_value (p_max_degree p) m_hash_many fuel input key chunk_counter flags p out
+  = GenLibLoopsP.res_map (fun cvs => (arr_store out 0 (concat cvs), nlen_l cvs))
+      (compress_chunks_parallel_with fuel p input key chunk_counter flags (nlen out / 32)).
+Proof. exact lib_compress_chunks_parallel_eq. Qed.
+Print Assumptions C01_lib_src_compress_chunks_parallel.
+
+Theorem C01_lib_src_compress_chunks_parallel_enough : forall p fuel input key chunk_counter flags cap, (17 <= fuel)%nat ->
+  compress_chunks_parallel_with fuel p input key chunk_counter flags cap
+  = compress_chunks_parallel p input key chunk_counter flags cap.
+Proof. exact compress_chunks_parallel_with_enough. Qed.
+Print Assumptions C01_lib_src_compress_chunks_parallel_enough.
+
+(* no fuel involved: the model itself *)
+Theorem C01_lib_src_compress_parents_parallel : forall p, plat_wf p -> forall child_cvs key flags out,
+  length key = 8%nat -> cvs32 child_cvs ->
+  lib_compress_parents_parallel (max_degree_or_2 p) m_hash_many (concat child_cvs) key flags p out
+  = GenLibLoopsP.res_map (fun cvs => (arr_store out 0 (concat cvs), nlen_l cvs))
+      (compress_parents_parallel p child_cvs key flags (nlen out / 32)).
+Proof. exact lib_compress_parents_parallel_eq. Qed.
+Print Assumptions C01_lib_src_compress_parents_parallel.
+
+Theorem C01_lib_src_compress_subtree_wide : forall p, plat_wf p -> forall key flags, length key = 8%nat ->
+  forall fuel input chunk_counter out, nlen input < 2 ^ 64 ->
+  lib_compress_subtree_wide m_Output_chaining_value (p_max_degree p) (max_degree_or_2 p) m_hash_many fuel input key
+    chunk_counter flags p out
+  = GenLibLoopsP.res_map (fun cvs => (arr_store out 0 (concat cvs), nlen_l cvs))
+      (compress_subtree_wide_with fuel p input key chunk_counter flags (nlen out / 32)).
+Proof. exact lib_compress_subtree_wide_eq. Qed.
+Print Assumptions C01_lib_src_compress_subtree_wide.
+
+(* the model's recursion on fuel f is refined by the translation's discipline on any fuel that leaves 17 for the
+   chunk-state loop at the leaves *)
+Theorem C01_lib_src_compress_subtree_wide_enough : forall p key flags f fuel input chunk_counter cap, (f + 17 <= fuel)%nat ->
+  refines (compress_subtree_wide f p input key chunk_counter flags cap)
+          (compress_subtree_wide_with fuel p input key chunk_counter flags cap).
+Proof. exact wide_with_refines. Qed.
+Print Assumptions C01_lib_src_compress_subtree_wide_enough.
+
+(* the `while num_cvs > 2` loop at every fuel: a relation, because the scratch arrays keep stale bytes behind the live
+   CVs (cv_array holds concat cvs in front; both arrays keep their lengths) *)
+Theorem C01_lib_src_condense_loop : forall p, plat_wf p -> forall key flags input chunk_counter, length key = 8%nat ->
+  forall fuel cvs cv_array out_array,
+  cvs32 cvs -> N.of_nat (length cvs) <= max_degree_or_2 p ->
+  length cv_array = N.to_nat (max_degree_or_2 p * 32) -> firstn (32 * length cvs) cv_array = concat cvs ->
+  length out_array = N.to_nat (max_degree_or_2 p * 32 / 2) ->
+  match condense_loop fuel p cvs key flags with
+  | Ok cvs' => exists cv_array' out_array',
+      lib_compress_subtree_to_parent_node_loop1 m_Output_chaining_value (p_max_degree p) (max_degree_or_2 p) m_hash_many
+        fuel input key chunk_counter flags p cv_array (nlen_l cvs) out_array = Ok (cv_array', nlen_l cvs', out_array') /\
+      length cv_array' = length cv_array /\ firstn (32 * length cvs') cv_array' = concat cvs'
+  | Panic c =>
+      lib_compress_subtree_to_parent_node_loop1 m_Output_chaining_value (p_max_degree p) (max_degree_or_2 p) m_hash_many
+        fuel input key chunk_counter flags p cv_array (nlen_l cvs) out_array = Panic c
+  | OutOfFuel =>
+      lib_compress_subtree_to_parent_node_loop1 m_Output_chaining_value (p_max_degree p) (max_degree_or_2 p) m_hash_many
+        fuel input key chunk_counter flags p cv_array (nlen_l cvs) out_array = OutOfFuel
+  end.
+Proof. intros p WF key flags input cc Hk. exact (tpn_loop_eq p WF key flags input cc Hk). Qed.
+Print Assumptions C01_lib_src_condense_loop.
+
+Theorem C01_lib_src_compress_subtree_to_parent_node : forall p, plat_wf p -> forall fuel input key chunk_counter flags,
+  length key = 8%nat -> nlen input < 2 ^ 64 ->
+  lib_compress_subtree_to_parent_node m_Output_chaining_value (p_max_degree p) (max_degree_or_2 p) m_hash_many
+    fuel input key chunk_counter flags p
+  = compress_subtree_to_parent_node_with fuel p input key chunk_counter flags.
+Proof. exact lib_compress_subtree_to_parent_node_eq. Qed.
+Print Assumptions C01_lib_src_compress_subtree_to_parent_node.
+
+Theorem C01_lib_src_hash_all_at_once : forall p, plat_wf p -> forall fuel input key flags,
+  length key = 8%nat -> nlen input < 2 ^ 64 ->
+  lib_hash_all_at_once m_Output_chaining_value (p_max_degree p) (max_degree_or_2 p) m_hash_many p fuel input key flags
+  = GenLibLoopsP.res_map (lib_of_out p) (hash_all_at_once_with fuel p input key flags).
+Proof. exact lib_hash_all_at_once_eq. Qed.
+Print Assumptions C01_lib_src_hash_all_at_once.
+
+Theorem C01_lib_src_hash : forall p, plat_wf p -> forall fuel input, nlen input < 2 ^ 64 ->
+  lib_hash m_Output_chaining_value m_Output_root_hash (p_max_degree p) (max_degree_or_2 p) m_hash_many p fuel input
+  = rs_hash_with fuel p input.
+Proof. exact lib_hash_eq. Qed.
+Print Assumptions C01_lib_src_hash.
+
+Theorem C01_lib_src_keyed_hash : forall p, plat_wf p -> forall fuel key input, length key = 32%nat -> nlen input < 2 ^ 64 ->
+  lib_keyed_hash m_Output_chaining_value m_Output_root_hash (p_max_degree p) (max_degree_or_2 p) m_hash_many p
+    words_of_bytes fuel key input
+  = rs_keyed_hash_with fuel p key input.
+Proof. exact lib_keyed_hash_eq. Qed.
+Print Assumptions C01_lib_src_keyed_hash.
+
+Theorem C01_lib_src_derive_key : forall p, plat_wf p -> forall fuel context material, nlen material < 2 ^ 64 ->
+  lib_derive_key m_Output_chaining_value m_Output_root_hash (p_max_degree p) (max_degree_or_2 p) m_hash_many p
+    words_of_bytes (rs_hash_derive_key_context p) fuel context material
+  = rs_derive_key_with fuel p context material.
+Proof. exact lib_derive_key_eq. Qed.
+Print Assumptions C01_lib_src_derive_key.
+
+(* with fuel 81 (64 levels of recursion + 17 blocks of a chunk) the *_with models refine the models *)
+Theorem C01_lib_src_all_at_once_enough : forall p fuel input key chunk_counter flags context, (81 <= fuel)%nat ->
+  refines (compress_subtree_to_parent_node p input key chunk_counter flags)
+          (compress_subtree_to_parent_node_with fuel p input key chunk_counter flags) /\
+  refines (hash_all_at_once p input key flags) (hash_all_at_once_with fuel p input key flags) /\
+  refines (rs_hash p input) (rs_hash_with fuel p input) /\
+  refines (rs_keyed_hash p key input) (rs_keyed_hash_with fuel p key input) /\
+  refines (rs_derive_key p context input) (rs_derive_key_with fuel p context input).
+Proof.
+  intros p fuel input key cc fl ctx HF.
+  split; [exact (tpn_with_refines p fuel input key cc fl HF)|].
+  split; [exact (hash_all_at_once_with_refines p fuel input key fl HF)|].
+  split; [exact (rs_hash_with_refines p fuel input HF)|].
+  split; [exact (rs_keyed_hash_with_refines p fuel key input HF)|exact (rs_derive_key_with_refines p fuel ctx input HF)].
+Qed.
+Print Assumptions C01_lib_src_all_at_once_enough.
+
+(* END TO END: the translated source text of hash / keyed_hash / derive_key computes the BLAKE3 specification, on every
+   PlatformOK platform with the shapes plat_wf, for every fuel from 81 on *)
+Theorem C01_lib_src_hash_spec : forall p, PlatformOK p -> plat_wf p -> forall fuel input, (81 <= fuel)%nat ->
+  len input < 2 ^ 64 ->
+  lib_hash m_Output_chaining_value m_Output_root_hash (p_max_degree p) (max_degree_or_2 p) m_hash_many p fuel input
+  = Ok (b3_hash input).
+Proof.
+  intros p OK WF fuel input HF Hin. rewrite (lib_hash_eq p WF fuel input Hin).
+  rewrite (refines_ok _ _ (rs_hash_with_refines p fuel input HF)); rewrite (rs_hash_spec p OK input Hin); [reflexivity|discriminate].
+Qed.
+Print Assumptions C01_lib_src_hash_spec.
+
+Theorem C01_lib_src_keyed_hash_spec : forall p, PlatformOK p -> plat_wf p -> forall fuel key input, (81 <= fuel)%nat ->
+  length key = 32%nat -> len input < 2 ^ 64 ->
+  lib_keyed_hash m_Output_chaining_value m_Output_root_hash (p_max_degree p) (max_degree_or_2 p) m_hash_many p
+    words_of_bytes fuel key input
+  = Ok (b3_keyed_hash key input).
+Proof.
+  intros p OK WF fuel key input HF Hk Hin. rewrite (lib_keyed_hash_eq p WF fuel key input Hk Hin).
+  rewrite (refines_ok _ _ (rs_keyed_hash_with_refines p fuel key input HF)); rewrite (rs_keyed_hash_spec p OK key input Hk Hin);
+    [reflexivity|discriminate].
+Qed.
+Print Assumptions C01_lib_src_keyed_hash_spec.
+
+Theorem C01_lib_src_derive_key_spec : forall p, PlatformOK p -> plat_wf p -> forall fuel context material, (81 <= fuel)%nat ->
+  len context < 2 ^ 64 -> len material < 2 ^ 64 ->
+  lib_derive_key m_Output_chaining_value m_Output_root_hash (p_max_degree p) (max_degree_or_2 p) m_hash_many p
+    words_of_bytes (rs_hash_derive_key_context p) fuel context material
+  = Ok (b3_derive_key context material).
+Proof.
+  intros p OK WF fuel ctx mat HF Hc Hm. rewrite (lib_derive_key_eq p WF fuel ctx mat Hm).
+  rewrite (refines_ok _ _ (rs_derive_key_with_refines p fuel ctx mat HF)); rewrite (rs_derive_key_spec p OK ctx mat Hc Hm);
+    [reflexivity|discriminate].
+Qed.
+Print Assumptions C01_lib_src_derive_key_spec.
+
+(* non-vacuity: the translated hash on a concrete 3-chunk input, two platforms, against the model *)
+Example C01_lib_src_nonvacuous :
+  let input := map (fun i => N.of_nat i mod 251) (seq 0 2049) in
+  let p := sim_platform 4 16 in
+  lib_hash m_Output_chaining_value m_Output_root_hash (p_max_degree p) (max_degree_or_2 p) m_hash_many p 100 input
+  = rs_hash p input /\
+  is_ok (rs_hash p input) = true.
+Proof. vm_compute. split; reflexivity. Qed.
+Print Assumptions C01_lib_src_nonvacuous.
